@@ -396,7 +396,7 @@ func runCase(c *vrun.Case, s reconlib.Scenario, judge func(*reconlib.Outcome) vr
 func TestC05Reconnect(t *testing.T) {
 	e := vrun.LoadEnv()
 	meta := vrun.Meta{Property: "C05", Workload: "TestC05Reconnect", Total: e.Pick(300, 40000),
-		Rule: "virtual time: base scenario (0-3 upstreams and 0-2 downstreams of all QoS with continuous traffic, acks partly withheld, a drawn subset of {OpenUpstream, OpenDownstream, SendMetadata, SendCall, SendCallAndWaitReplayCall} issued the moment the link dies, writes continuing during the outage) x 1-3 transport failures, each at a message boundary (direction, message class, ordinal, before/after) in one of 4 failure modes, with redial instant / 1 ms / 3 s / after 1-3 dial errors, resume conflicts 0/1/3, optionally a second failure inside the connect handshake of the retry, a resume exchange that is cut, a resume the broker refuses, or a link that dies the moment a stream has resumed on it; in a quarter of the cases the application's logger blocks 0.3-10 s at one step of the reconnect / resume procedure. Oracle: recovery within 120 virtual seconds; strictly newer token on every connect; resume requests under the original stream id / alias; every stream either passes a probe after recovery (write+flush+ack, or a pushed chunk read) or was reported closed with an error - and only the stream whose resume was refused or cut may be; notifications pair up once per outage; outage calls succeed (or end with their own context), never with a connection error. non-trivial = at least one fault fired; distinct = (stream mix, outage calls, fault keys)",
+		Rule: "virtual time: base scenario (0-3 upstreams and 0-2 downstreams of all QoS with continuous traffic, acks partly withheld, a drawn subset of {OpenUpstream, OpenDownstream, SendMetadata, SendCall, SendCallAndWaitReplayCall} issued the moment the link dies, writes continuing during the outage) x 1-3 transport failures, each at a message boundary (direction, message class, ordinal, before/after) in one of 4 failure modes, with redial instant / 1 ms / 3 s / after 1-3 dial errors, resume conflicts 0/1/3, optionally a second failure inside the connect handshake of the retry, a resume exchange that is cut, a resume the broker refuses, or a link that dies the moment a stream has resumed on it; in a quarter of the cases the application's logger blocks 0.3-10 s at one step of the reconnect / resume procedure, in a fifth its disconnected or reconnected handler takes 0.3-10 s. Oracle: recovery within 120 virtual seconds; strictly newer token on every connect; resume requests under the original stream id / alias; every stream either passes a probe after recovery (write+flush+ack, or a pushed chunk read) or was reported closed with an error - and only the stream whose resume was refused or cut may be; notifications pair up once per outage; outage calls succeed (or end with their own context), never with a connection error. non-trivial = at least one fault fired; distinct = (stream mix, outage calls, fault keys)",
 		Assumptions: []string{"bounded restatement of 'keeps working': within 120 virtual seconds after the last fault, with a cooperative broker",
 			"'once per outage' is counted on the client's own notifications (disconnected == reconnected); a stream's resumed notifications must equal the number of resume exchanges it completed on the wire (an outage that hits before a stream has resumed merges with the previous one for that stream)",
 			"'reported closed with an error' is read as: a closed notification carrying an error OR the stream's own calls failing with the stream-closed error (the weaker reading; the stream is not SILENTLY detached then)"}}
@@ -410,6 +410,11 @@ func TestC05Reconnect(t *testing.T) {
 			// the application's logger blocks for a while at one step of the reconnect / resume procedure
 			s.SlowLog = reconlib.SlowLogSites[c.Rng.Intn(len(reconlib.SlowLogSites))]
 			s.SlowLogMs = []int{300, 3000, 10000}[c.Rng.Intn(3)]
+		}
+		if c.Rng.Intn(5) == 0 {
+			// the application's disconnected / reconnected handler (called inline by the reconnect loop) takes a while
+			s.SlowHandler = []string{"disconnected", "reconnected"}[c.Rng.Intn(2)]
+			s.SlowHandlerMs = []int{300, 3000, 10000}[c.Rng.Intn(3)]
 		}
 		return runCase(c, s, Judge)
 	})
